@@ -57,36 +57,38 @@ Theorem C16_range_partial :
 Proof. exact simple_range. Qed.
 Print Assumptions C16_range_partial.
 
-(* ---- successive-approximation converter, resolutions up to 53 bits: every code lies in
-   0 .. 2^bits - 1 for ALL voltages (NaN and infinities included) and ALL reference voltages, the cast
-   is defined whenever the type is wide enough, and the code is non-decreasing in the voltage (finite
-   voltages, finite vmax >= 0).  For 54..63 bits the range statement is refuted below. *)
-Theorem C16_sar_range_partial :
+(* ---- successive-approximation converter (integer accumulator), EVERY resolution: every code lies in
+   0 .. 2^bits - 1 for ALL voltages (NaN and infinities included) and ALL reference voltages, the
+   unsigned accumulator never wraps and the result is defined whenever the type is wide enough (it is:
+   C16_dtype_wide_enough), and the code is non-decreasing in the voltage (finite voltages, finite
+   vmax >= 0). *)
+Theorem C16_sar_range :
   forall (w bits : Z) (vmax x : b64) (c : Z),
-  1 <= bits <= 53 -> sar_code w bits vmax x = Some c -> 0 <= c <= 2 ^ bits - 1.
+  1 <= bits -> sar_code w bits vmax x = Some c -> 0 <= c <= 2 ^ bits - 1.
 Proof. exact sar_range. Qed.
-Print Assumptions C16_sar_range_partial.
+Print Assumptions C16_sar_range.
 
 Theorem C16_sar_defined :
   forall (w bits : Z) (vmax x : b64),
-  1 <= bits <= 53 -> bits <= w -> exists c, sar_code w bits vmax x = Some c.
-Proof. exact sar_defined. Qed.
+  1 <= bits -> bits <= w ->
+  sar_code w bits vmax x = Some (sar_acc bits vmax x) /\ 0 <= sar_acc bits vmax x <= 2 ^ bits - 1.
+Proof. intros w bits vmax x Hb Hw. split; [apply sar_defined; assumption|apply sar_acc_range; assumption]. Qed.
 Print Assumptions C16_sar_defined.
 
-Theorem C16_sar_monotone_partial :
-  forall (bits : Z), 1 <= bits <= 53 ->
+Theorem C16_sar_monotone :
+  forall (bits : Z), 1 <= bits ->
   forall (w : Z) (vmax x y : b64) (cx cy : Z),
   is_finite vmax = true -> (0 <= B2R vmax)%R ->
   is_finite x = true -> is_finite y = true -> ble x y = true ->
   sar_code w bits vmax x = Some cx -> sar_code w bits vmax y = Some cy -> cx <= cy.
 Proof. exact sar_monotone. Qed.
-Print Assumptions C16_sar_monotone_partial.
+Print Assumptions C16_sar_monotone.
 
 (* ---- the noisy variant with zero strengths and zero noises reproduces the noise-free converter
-   exactly: for EVERY voltage (NaN, infinities included), every finite reference voltage >= 0 *)
+   exactly: EVERY resolution, EVERY voltage (NaN, infinities included), every finite vmax >= 0 *)
 Theorem C16_sar_noise0 :
   forall (w bits : Z) (vmax x : b64),
-  1 <= bits <= 53 -> is_finite vmax = true -> (0 <= B2R vmax)%R ->
+  is_finite vmax = true -> (0 <= B2R vmax)%R ->
   sar0_code w bits vmax x = sar_code w bits vmax x.
 Proof. exact sar0_eq_sar. Qed.
 Print Assumptions C16_sar_noise0.
@@ -129,7 +131,7 @@ Theorem C16_wrap_refuted :
 Proof. exists pzero, (bofZ 1). split; [reflexivity|exact wrap_witness]. Qed.
 Print Assumptions C16_wrap_refuted.
 
-Theorem C16_sar_range_high_bits_refuted :
-  exists bits vmax x c, 4 <= bits <= 64 /\ sar_code 64 bits vmax x = Some c /\ 2 ^ bits - 1 < c.
-Proof. exists 54, (bofZ 1), (bofZ 2), (2 ^ 54). split; [lia|]. split; [exact sar_exceed_witness|lia]. Qed.
-Print Assumptions C16_sar_range_high_bits_refuted.
+(* the SAR converters at the resolutions that used to fail (C16-F8d, repaired) *)
+Example C16_sar_full_scale_high_bits :
+  sar_code 64 54 (bofZ 1) (bofZ 2) = Some (2 ^ 54 - 1) /\ sar_code 64 64 (bofZ 1) (mk 3 (-2)) = Some (2 ^ 63 + 2 ^ 62).
+Proof. split; [exact sar_full_scale_54|exact sar_top_bit_64]. Qed.
